@@ -90,8 +90,23 @@ class Monitor(object):
         if age is not None and (not isinstance(age, int) or age < 0):
             ctx.count('unjudged.age-type')
             return
-        exp = O.exact_score(core.REPO, self.live, g, e, n, age, esaa)
         case = {'g': g, 'e': e, 'n': n, 'v': v, 'vtype': type(v).__name__, 'age': age, 'esaa': esaa}
+        if isinstance(e, str) and e != e.upper() and (g, e.upper()) in self.live and (g, e) not in self.live:
+            # a re-cased spelling of a scored event: the library folds the case when it looks the coefficients up.  Whether
+            # it answers at all is its own business (None is the "no score" answer), but a score must be the event's score
+            if out.ok and out.value is None:
+                ctx.count('unspecified.recased-event-not-scored')
+                return
+            exp = O.exact_score(core.REPO, self.live, g, e.upper(), n, age, esaa)
+            if exp[0] == 'points':
+                ctx.count('judged')
+                if not out.ok or type(out.value) is not int or out.value != exp[1]:
+                    ctx.violation('points:recased-event-code-scored-differently', case, exp[1], repr(out))
+                elif exp[1] > 0:
+                    ctx.nt((g, e, n, age, esaa))
+                    ctx.count('judged.recased-event')
+            return
+        exp = O.exact_score(core.REPO, self.live, g, e, n, age, esaa)
         if exp[0] == 'unspecified':
             ctx.count('unspecified.' + ('raise' if not out.ok else 'return'))
             ctx.sample('unspecified', dict(case, outcome=repr(out)), 2)
@@ -179,6 +194,11 @@ def run_shard(ctx, spec):
         marks, top = marks_for_row(mon, g, e, tier, rnd)
         for n in marks:
             drive(mon, g, e, n, reps=(tier == 'quick' or n % 7 == 0))
+        for sp in (e.lower(), e.capitalize()):
+            if sp != e:
+                for n in list(marks)[:: max(1, len(marks) // 150)]:
+                    drive(mon, g, sp, n, reps=False)
+                    drive(mon, g, sp, n, age=50, reps=False)
         if (g, e) == ('M', '800'):
             # the ESAA option must not leak into later plain calls (and vice versa): interleave them
             for n in marks:
